@@ -1,5 +1,185 @@
+"""C16 - richness and overlap estimators follow their closed forms for every count vector."""
 from .. import AnalysisBroken
+from ..rules import Equiv, canon_params, check_equiv, check_scope, cmp, guards_imply, len_of, where_of
+from ..terms import const, head, is_const, show, strip, subst
+
+CLAIMED = True
+LEVEL = "proof"
+TECHNIQUE = "rational-function normal form of every return path vs closed-form specification; scope (def-use) and may-raise (guarded subscript) analysis; set-expression normal form with symmetry check"
+TEXT = ("Decides the property for every count vector / pair of collections: each return path of chao1, chao2, var_chao1, var_chao2 is "
+        "normalised to a rational function over the atoms counts[0], counts[1], sum(counts) and compared (as polynomials, n1*d2 == n2*d1) "
+        "with the closed form of the statement under a finite truth table of the branch conditions; every name read is bound and every "
+        "counts[k] is evaluated only where len(counts) > k is implied by the guard context (no NameError / IndexError); the three overlap "
+        "measures normalise to |A&B|/|A|B|, |A&B|, |A&B|/min(|A|,|B|) on the NaN-dropped element sets and are invariant under A<->B.")
+NOTE = ("Trusted: exact (non floating point) arithmetic; numpy.sum = sum of entries; set/len/min semantics of builtins; pandas Series.dropna removes "
+        "missing values. Input domain: list or array of length >= 1 for counts.")
+
+SPEC = '''
+def chao1(counts):
+    if len(counts) == 1 or counts[1] == 0:
+        return np.sum(counts) + counts[0] * (counts[0] - 1) / 2
+    return np.sum(counts) + counts[0] ** 2 / (2 * counts[1])
+
+def chao2(counts, m):
+    if len(counts) == 1 or counts[1] == 0:
+        return np.nan
+    return np.sum(counts) + counts[0] ** 2 / (2 * counts[1])
+
+def var_chao1(counts):
+    if len(counts) == 1 or counts[1] == 0:
+        return np.nan
+    r = counts[0] / counts[1]
+    return counts[1] * (r ** 2 / 2 + r ** 3 + r ** 4 / 4)
+
+def var_chao2(counts, m):
+    if len(counts) == 1 or counts[1] == 0:
+        return np.nan
+    r = counts[0] / counts[1]
+    return counts[1] * (r ** 2 / 2 + r ** 3 + r ** 4 / 4)
+
+def jaccard_index(A, B):
+    if type(A) == pd.Series:
+        A = A.dropna()
+    if type(B) == pd.Series:
+        B = B.dropna()
+    return len(set(A) & set(B)) / len(set(A) | set(B))
+
+def overlap(A, B):
+    if type(A) != pd.Series:
+        A = pd.Series(A)
+    if type(B) != pd.Series:
+        B = pd.Series(B)
+    return len(set(A.dropna()) & set(B.dropna()))
+
+def overlap_coefficient(A, B):
+    if type(A) != pd.Series:
+        A = pd.Series(A)
+    if type(B) != pd.Series:
+        B = pd.Series(B)
+    if len(set(A.dropna())) == 0 or len(set(B.dropna())) == 0:
+        return np.nan
+    return len(set(A.dropna()) & set(B.dropna())) / min(len(set(A.dropna())), len(set(B.dropna())))
+'''
+
+CHAO = ["chao1", "chao2", "var_chao1", "var_chao2"]
+SETS = ["jaccard_index", "overlap", "overlap_coefficient"]
+M = "pyrepseq.stats."
+
+
+def _setlike(t):
+    t = strip(t)
+    if head(t) == "setop":
+        return True
+    return head(t) == "call" and head(strip(t[1])) == "glob" and strip(t[1])[1] in ("builtins.set", "builtins.frozenset")
+
+
+def set_rewrite(t):
+    """SETF: canonical commutative forms of intersection / union."""
+    h = head(t)
+    if h == "call" and head(t[1]) == "attr" and t[1][2] in ("intersection", "union") and len(t[2]) == 1 and not t[3]:
+        a, b = t[1][1], t[2][0]
+        op = "inter" if t[1][2] == "intersection" else "union"
+        return ("setop", op, tuple(sorted((a, b), key=repr)))
+    if h == "bin" and t[1] in ("&", "|") and _setlike(t[2]) and _setlike(t[3]):
+        return ("setop", "inter" if t[1] == "&" else "union", tuple(sorted((t[2], t[3]), key=repr)))
+    return t
 
 
 def run(r):
-    raise AnalysisBroken("rule set for C16 not implemented yet (fail-closed stub)")
+    rep = r.rep
+    rep.explanation = ("Every return path of the seven functions was normalised (rational functions over atoms / set-expression normal form) "
+                       "and compared with the closed forms of the statement over the complete truth table of its branch conditions; "
+                       "def-use scope analysis and guarded-subscript analysis rule out NameError / IndexError on the declared domain.")
+    rep.trust("exact arithmetic (no floating point)", "numpy.sum(v) = sum of the entries of v",
+              "builtins set / len / min; set.intersection = &, set.union = |", "pandas.Series.dropna() removes missing values and nothing else")
+    rep.assume("counts is a list or array with len(counts) >= 1")
+    spec = {n: r.A.summarize_source(SPEC, n) for n in CHAO + SETS}
+
+    # ---- C16-RF
+    for n in CHAO:
+        q = M + n
+        s = r.A.summary(q)
+        rep.analysed(q)
+        cp = canon_params(s)
+        code = subst(s.ret, cp)
+        sp = subst(spec[n].ret, canon_params(spec[n]))
+        counts = ("param", "#0")
+        eq = Equiv(vec=lambda t, c=counts: t == c)
+        check_equiv(rep, "C16-RF", q, f"{n} equals its closed form on every path", code, sp, where_of(r.P, s.func, s.func.node), eq=eq,
+                    assume=cmp(">=", len_of(counts), const(1)), key="closed form")
+    rep.floor("C16-RF", 4)
+
+    # ---- C16-SCOPE
+    check_scope(r, "C16-SCOPE", [M + n for n in CHAO + SETS])
+    rep.floor("C16-SCOPE", 7)
+
+    # ---- C16-EX: counts[k] only where len(counts) > k
+    n_ex = 0
+    for n in CHAO:
+        q = M + n
+        s = r.A.summary(q)
+        counts = ("param", s.params[0][0])
+        for e in s.events_of("load_sub"):
+            if strip(e["obj"]) != counts:
+                continue
+            idx = e["index"]
+            if not (is_const(idx) and isinstance(idx[2], int)):
+                raise AnalysisBroken(f"{q}: subscript {show(idx)} on counts is outside the idiom list (constant index expected)")
+            k = idx[2]
+            claim = cmp(">", len_of(counts), const(k)) if k >= 0 else cmp(">=", len_of(counts), const(-k))
+            ok, cex = guards_imply(e.ctx.guards, claim, assume=cmp(">=", len_of(counts), const(1)))
+            n_ex += 1
+            rep.ob("C16-EX", q, ok, f"counts[{k}] is evaluated only where len(counts) > {k}", where_of(r.P, s.func, e.node),
+                   expected=f"guard context implies len(counts) > {k}", found=("implied" if ok else f"reachable with {cex}"), key=f"counts[{k}] guarded")
+    rep.floor("C16-EX", 8)
+
+    # ---- C16-SETF
+    for n in SETS:
+        q = M + n
+        s = r.A.summary(q)
+        rep.analysed(q)
+        code = subst(s.ret, canon_params(s))
+        sp = subst(spec[n].ret, canon_params(spec[n]))
+        eq = Equiv(rewrites=[set_rewrite], modelled={"pandas.Series", "builtins.set", "builtins.type"})
+        check_equiv(rep, "C16-SETF", q, f"{n} equals its set-algebra closed form after dropping missing values", code, sp,
+                    where_of(r.P, s.func, s.func.node), eq=eq, key="closed form")
+        a, b = ("param", "#0"), ("param", "#1")
+        swapped = subst(code, {a: b, b: a})
+        check_equiv(rep, "C16-SYM", q, f"{n}(A, B) == {n}(B, A)", code, swapped, where_of(r.P, s.func, s.func.node), eq=eq, key="symmetry")
+    rep.floor("C16-SETF", 3)
+    rep.floor("C16-SYM", 3)
+
+
+# --------------------------------------------------------------------------- self-test catalogue
+from ..selftest import V  # noqa: E402
+
+S = "pyrepseq/stats.py"
+VARIANTS = [
+    # regressions of repaired defects (known_findings.json 'fixed')
+    V("D7a-var_chao1-coefficients", S, "return f2 * (ratio**4 / 4 + ratio**3 + ratio**2 / 2)",
+      "return f2 * ((ratio / 4) ** 4 + ratio**3 + (ratio / 2) ** 2)", rule="C16-RF"),
+    V("D7b-var_chao2-unbound-q2", S, "    q2 = counts[1]\n    ratio = q1/q2\n", "    ratio = q1/q2\n", rule="C16-SCOPE"),
+    # must fire
+    V("chao1-denominator", S, "return Sobs + f1**2/(2*f2)", "return Sobs + f1**2/(f2)", rule="C16-RF"),
+    V("chao2-q1-not-squared", S, "return Sobs + q1**2/(2*q2)", "return Sobs + q1*2/(2*q2)", rule="C16-RF"),
+    V("chao1-f2zero-branch", S, "return Sobs + (f1*(f1-1))/2", "return Sobs + (f1*(f1+1))/2", rule="C16-RF"),
+    V("chao1-guard-order", S, "    if (len(counts) == 1) or (counts[1] == 0):\n        return Sobs + (f1*(f1-1))/2",
+      "    if (counts[1] == 0) or (len(counts) == 1):\n        return Sobs + (f1*(f1-1))/2", rule="C16-EX"),
+    V("var_chao1-drops-len-guard", S, "    if len(counts) == 1:\n        return np.nan\n    if counts[1] == 0:", "    if counts[1] == 0:", rule="C16-EX"),
+    V("overlap_coefficient-max", S, "/ min(len(A), len(B))", "/ max(len(A), len(B))", rule="C16-SETF"),
+    V("jaccard-union-to-A", S, "len(A.union(B))", "len(A)", rule="C16-S"),
+    V("overlap-drops-dropna-B", S, "    A = A.dropna()\n    B = B.dropna()\n    A = set(A)\n    B = set(B)\n    return len(A.intersection(B))\n",
+      "    A = A.dropna()\n    A = set(A)\n    B = set(B)\n    return len(A.intersection(B))\n", rule="C16-S"),
+    V("jaccard-asymmetric-dropna", S, "    if type(B) == pd.Series:\n        B = B.dropna()\n", "", rule="C16-S"),
+    V("var_chao2-nan-to-zero", S, "        return np.nan\n    \n    q2 = counts[1]\n    ratio", "        return 0\n    \n    q2 = counts[1]\n    ratio", rule="C16-RF"),
+    # must stay silent
+    V("silent-decimal-coefficients", S, "return f2 * (ratio**4 / 4 + ratio**3 + ratio**2 / 2)", "return f2 * (0.25 * ratio**4 + ratio**3 + 0.5 * ratio**2)", expect="silent"),
+    V("silent-len-A-and-B", S, "    return len(A.intersection(B)) / (len(A.union(B)))", "    return len(A & B) / len(B | A)", expect="silent"),
+    V("silent-rename-local", S, "    f2 = counts[1]\n    ratio = f1 / f2\n    return f2 * (ratio**4 / 4 + ratio**3 + ratio**2 / 2)",
+      "    doubletons = counts[1]\n    rr = f1 / doubletons\n    return doubletons * (rr**4 / 4 + rr**3 + rr**2 / 2)", expect="silent"),
+    V("silent-merged-guards", S, "    if len(counts) == 1:\n        return np.nan\n    if counts[1] == 0:\n        return np.nan\n",
+      "    if len(counts) == 1 or counts[1] == 0:\n        return np.nan\n", expect="silent"),
+    V("silent-inverted-branch", S, "    if (len(counts) == 1) or (counts[1] == 0):\n        return np.nan\n\n    q2 = counts[1]\n    return Sobs + q1**2/(2*q2) \n",
+      "    if len(counts) > 1 and counts[1] != 0:\n        q2 = counts[1]\n        return Sobs + q1**2/(2*q2)\n    return np.nan\n", expect="silent"),
+    V("silent-expanded-square", S, "return Sobs + f1**2/(2*f2)", "return Sobs + f1*f1/(f2+f2)", expect="silent"),
+]
